@@ -24,7 +24,6 @@ import (
 	"crypto/elliptic"
 	"crypto/x509"
 	"crypto/x509/pkix"
-	"encoding/pem"
 	"errors"
 	"fmt"
 	"math/big"
@@ -76,6 +75,7 @@ type material struct {
 	ccmCt, ccmNonce          []byte
 	envForShared             []byte // an own SM2 key enveloped for the shared SM2 key
 	envKey                   []byte // its scalar
+	nc                       *ncPKI // the constrained branch of the round PKI
 	sm9Seed                  uint64 // the scripted streams "signmaster"/"encmaster" of this seed generate the master keys
 }
 
@@ -105,6 +105,7 @@ type objset struct {
 	// a pool filled with AddCert / AddCertWithConstraint from parsed certificates (no lazy parsing, shared
 	// *Certificate values, a constraint callback that the library may call from many goroutines)
 	rootsParsed *smx509.CertPool
+	ncLeaves    []*smx509.Certificate // the leaves of the constrained branch, [0] satisfies every constraint
 	// legacy-curve keys used with the SM2 scheme
 	legA, legB       *sm2.PrivateKey // A: NIST P-256 (see legacyCurveA), B: NIST P-384
 	legAPub, legBPub *ecdsa.PublicKey
@@ -245,9 +246,12 @@ func buildMaterial(r *mon.Rand) *material {
 	must(err)
 	m.leafBDER, err = smx509.CreateCertificate(script(seed, "leafB"), lbt, ibt, &leafBK.PublicKey, intBK)
 	must(err)
-	m.rootDERs, m.interDERs = [][]byte{rootDER, rootBDER}, [][]byte{interDER, interBDER}
-	m.poolPEM = append(pem.EncodeToMemory(&pem.Block{Type: "CERTIFICATE", Bytes: rootDER}), pem.EncodeToMemory(&pem.Block{Type: "CERTIFICATE", Bytes: rootBDER})...)
-	m.interPEM = append(pem.EncodeToMemory(&pem.Block{Type: "CERTIFICATE", Bytes: interDER}), pem.EncodeToMemory(&pem.Block{Type: "CERTIFICATE", Bytes: interBDER})...)
+	// a third, technically constrained branch (pki.go): root and intermediate with name constraints of every kind, leaves
+	// with SANs of every kind; its intermediate is also cross-signed by the first root
+	m.nc = buildNCPKI(r, seed, m.when, &issuer{rt, rootK}, true)
+	m.rootDERs, m.interDERs = [][]byte{rootDER, rootBDER, m.nc.rootDER}, [][]byte{interDER, interBDER}
+	m.poolPEM = pemOf(rootDER, rootBDER, m.nc.rootDER)
+	m.interPEM = pemOf(interDER, interBDER, m.nc.interDER, m.nc.interCrossDER)
 	return m
 }
 
@@ -337,6 +341,11 @@ func (m *material) cold() *objset {
 		must(err)
 		o.leafB, err = smx509.ParseCertificate(m.leafBDER)
 		must(err)
+		for _, l := range m.nc.leaves {
+			crt, err := smx509.ParseCertificate(l.der)
+			must(err)
+			o.ncLeaves = append(o.ncLeaves, crt)
+		}
 		o.rootsParsed = smx509.NewCertPool()
 		for i, der := range m.rootDERs {
 			crt, err := smx509.ParseCertificate(der)
@@ -479,9 +488,9 @@ func bl(v bool) []byte {
 // development (VERIF_C20_INTERNAL_POINTS=1), never set by a registered command.
 var ops = func() []op {
 	if os.Getenv("VERIF_C20_INTERNAL_POINTS") == "1" {
-		return concatOps(baseOps, deriveOps, agreeOps, legacyOps, modeOps, pointOps)
+		return concatOps(baseOps, deriveOps, agreeOps, legacyOps, modeOps, pkiOps, pointOps)
 	}
-	return concatOps(baseOps, deriveOps, agreeOps, legacyOps, modeOps)
+	return concatOps(baseOps, deriveOps, agreeOps, legacyOps, modeOps, pkiOps)
 }()
 
 func concatOps(parts ...[]op) []op {
